@@ -8,7 +8,7 @@
    transformers whose read/write footprints do not interfere commute, on any store - and, by computation on the footprints regenerated from /repo on
    every run, which pairs of builder methods it applies to. *)
 From PT Require Import Base.Str Model.Types Model.Value Model.Interval Model.Syntax Gen.Ctx Gen.Enums Gen.Prec Gen.Placeholders Model.Render
-     Ref.Lexer Ref.Clauses Gen.Footprints.
+     Ref.Lexer Ref.Clauses Gen.Footprints Ref.RowLimit Proofs.QueryEq Proofs.PaginationAll Proofs.ClauseOrder.
 Open Scope N_scope.
 
 (* ---- (iii) an incomplete builder renders the empty string ---- *)
@@ -83,6 +83,24 @@ Theorem C13_footprints_allow_commutation :
           [L "QueryBuilder"; L "MySQLQueryBuilder"; L "PostgreSQLQueryBuilder"; L "SQLLiteQueryBuilder"; L "MSSQLQueryBuilder"; L "OracleQueryBuilder"] = true.
 Proof. vm_compute. reflexivity. Qed.
 Print Assumptions C13_footprints_allow_commutation.
+
+(* (ii) clause order, for EVERY plain SELECT statement of the model (any clauses and operands, any context, any parameterizer state): the text is
+   WITH, SELECT, FROM, index hints, joins, PREWHERE, WHERE, GROUP BY, HAVING, ORDER BY, row limit, FOR UPDATE - in this one order, each clause at most
+   once, each empty or introduced by its own keyword, the row limit being the dialect's reference clause.  The statement holds clauses in fields, so
+   the order in which the builder calls were made cannot reach the text except through the contents of the fields. *)
+Theorem C13_select_clause_order : forall (q : query) (c0 : ctx) (p : pz) (s : str) (p' : pz),
+  plain_select q = true ->
+  render_query (standalone c0) p q = Ok (s, p') ->
+  let c := clause_ctx q (adjust_ctx q (standalone c0)) in
+  exists sw ssel sf sfi sui sj spw swh sg sh so sp ol oo,
+    s = sw ++ ssel ++ sf ++ sfi ++ sui ++ sj ++ spw ++ swh ++ sg ++ sh ++ so ++ sp ++ for_update_sql q c /\
+    kw_or_empty (L "WITH ") sw /\ (exists r, ssel = L "SELECT " ++ r) /\
+    kw_or_empty (L " FROM ") sf /\ kw_or_empty (L " FORCE INDEX (") sfi /\ kw_or_empty (L " USE INDEX (") sui /\ kw_or_empty [32] sj /\
+    kw_or_empty (L " PREWHERE ") spw /\ kw_or_empty (L " WHERE ") swh /\ kw_or_empty (L " GROUP BY ") sg /\ kw_or_empty (L " HAVING ") sh /\
+    kw_or_empty (L " ORDER BY ") so /\ sp = ref_pagination (q_cls q) ol oo (has_order q).
+Proof. exact plain_select_shape. Qed.
+Print Assumptions C13_select_clause_order.
+
 
 (* ---- the specification on examples ---- *)
 Example C13_wellformed_examples :
